@@ -122,7 +122,9 @@ def gpt_params(safe=None):
                        min_size=4, max_size=4).map(tuple)
     return st.fixed_dictionaries(dict(
         entries=ent, length=st.sampled_from([512, 513, 1024, 5120]),
-        fill=st.sampled_from([0, 0, 5, 9])))
+        fill=st.sampled_from([0, 0, 5, 9]),
+        prot_size=st.sampled_from([0xffffffff, 0, 1, 9, 10, 4096,
+                                   0x7fffffff, 0xfffffffe])))
 
 
 VMDK_EXTRA_SAFE = (
